@@ -169,6 +169,10 @@ def run_unit(u):
                 # exact per-entry identity: D2 * u == D1 * s
                 goal = harness.to_term(b) * u_ != harness.to_term(a) * s_
                 verdict, mdl = solve(res, "scaling entry %d" % e, A2 + side + [goal], timeout_ms=20000)
+                if verdict == "sat":
+                    ok2, what = replay_scaling(gid, sid, q)
+                    (res.violations if ok2 else res.unconfirmed).append({"key": "%s:scaling:%s" % (PID, "/".join(str(t) for t in u[1:])), "what": what, "replay": {"unit": [str(t) for t in u]}})
+                    break
                 _record(res, u, "scaling:entry%d" % e, verdict, None, replayable=False)
                 nq += 1
                 if nq >= (12 if case.n_p == 2 else 18):
@@ -235,6 +239,37 @@ def _masses_setter(case, res, u):
 
 
 @symnp.outside_session
+def replay_scaling(gid, sid, q):
+    """concrete: D(s fc, t m) = (s/t) D(fc, m)"""
+    rng = np.random.default_rng(14)
+    ph = geometries.phonopy_obj(gid, sid)
+    n = len(ph.supercell)
+    F = rng.uniform(-1, 1, (n, n, 3, 3))
+    ph.force_constants = F.copy()
+    ph.dynamical_matrix.run(np.array(q, dtype=float)); D1 = ph.dynamical_matrix.dynamical_matrix.copy()
+    sfac, tfac = 1.7, 0.6
+    ph2 = geometries.phonopy_obj(gid, sid)
+    ph2.masses = ph2.primitive.masses * tfac
+    ph2.force_constants = F * sfac
+    ph2.dynamical_matrix.run(np.array(q, dtype=float)); D2 = ph2.dynamical_matrix.dynamical_matrix
+    d = float(np.abs(D2 - D1 * (sfac / tfac)).max())
+    return d > 1e-9, "D(s fc, t m) differs from (s/t) D(fc, m) by %.3g for s=%g, t=%g at q=%s (%s/%s)" % (d, sfac, tfac, q, gid, sid)
+
+
+@symnp.outside_session
+def replay_hermitian_python(gid, sid, q):
+    rng = np.random.default_rng(15)
+    ph = geometries.phonopy_obj(gid, sid)
+    n = len(ph.supercell)
+    ph.force_constants = rng.uniform(-1, 1, (n, n, 3, 3))
+    dm = ph.dynamical_matrix
+    dm._run_py_dynamical_matrix(np.array(q, dtype=float))
+    D = dm._dynamical_matrix
+    d = float(np.abs(D - D.conj().T).max())
+    return d > 1e-9, "the Python dynamical matrix is not Hermitian: |D - D^dagger| = %.3g at q=%s (%s/%s)" % (d, q, gid, sid)
+
+
+@symnp.outside_session
 def replay_acoustic(gid, sid):
     """concrete: a pair-spring model (translationally periodic, permutation symmetric, acoustic sum rule by construction)
     gives D(0) (sqrt(m_j) e_alpha) = 0"""
@@ -273,9 +308,13 @@ def _chk(res, u, name, lhs, rhs, A, xs, case, compact, replay_spec):
     if v == "sat":
         x = np.zeros(len(xs)) if model is None else harness.model_floats(model, xs)
         ok, mag = (False, 0.0)
+        key = "%s:%s:%s" % (PID, name.split(" ")[0], "/".join(str(t) for t in u[1:]))
         if replay_spec is not None:
             ok, mag = _replay(case, x, compact, replay_spec)
-        key = "%s:%s:%s" % (PID, name.split(" ")[0], "/".join(str(t) for t in u[1:]))
+        elif name.startswith("hermitian_python"):
+            ok2, what = replay_hermitian_python(case.gid, case.sid, QS[0])
+            (res.violations if ok2 else res.unconfirmed).append({"key": key, "what": what, "replay": {"unit": list(u)}})
+            return
         if ok:
             res.violations.append({"key": key, "what": "%s violated by %.3g on the compiled code" % (name, mag),
                                    "replay": {"unit": list(u), "spec": replay_spec, "x": x.tolist()}})
